@@ -262,7 +262,7 @@ theorem nopanic_set (s : St) (t : Nat) (b : TS)
 /-- **one model step is matched by the linearization checker** -/
 theorem sim_step (s : St) (e : Ev) (s' : St) (ms : LinSt (List Nat) LOp LRes) (hR : Rel s ms)
     (hs : step s e = some s') :
-    ∃ ms', (linMon dequeSpec).run ms (label model id linOf s e) = some ms' ∧ Rel s' ms' := by
+    ∃ ms', (linMon dequeSpec).run ms (label model Obs.toH linOf s e) = some ms' ∧ Rel s' ms' := by
   have hlen : ms.calls.length = s.th.length := by rw [hR.calls]; simp
   cases e with
   | inv t op =>
@@ -283,6 +283,8 @@ theorem sim_step (s : St) (e : Ev) (s' : St) (ms : LinSt (List Nat) LOp LRes) (h
     · rename_i op ha
       obtain ⟨c, hrep, hst⟩ := hR.rep
       obtain ⟨m', r, c', hb, hrep', hspec⟩ := body_refines s.mem c op hrep
+      split at hs
+      case isFalse => simp at hs
       simp [hb] at hs; subst hs
       have hc := calls_get s ms hR t _ ha
       have hrne : r ≠ .panic := by
@@ -313,6 +315,12 @@ theorem sim_step (s : St) (e : Ev) (s' : St) (ms : LinSt (List Nat) LOp LRes) (h
         constructor
         · intro h; cases h
         · intro h; cases h; exact (hR.nopanic t op).1 ha)
+  | envRLock =>
+    simp only [step] at hs; simp at hs; subst hs
+    exact ⟨ms, by simp [label, model, Ev.obs, Obs.toH, ObsMonitor.run], hR.calls, hR.rep, hR.nopanic⟩
+  | envRUnlock =>
+    simp only [step] at hs; split at hs <;> simp at hs; subst hs
+    exact ⟨ms, by simp [label, model, Ev.obs, Obs.toH, ObsMonitor.run], hR.calls, hR.rep, hR.nopanic⟩
 
 theorem step_cands (s s' : St) (e : Ev) (hs : step s e = some s') (ho : e.obs = none) : e ∈ cands s := by
   cases e <;> simp [Ev.obs] at ho
